@@ -428,7 +428,25 @@ def check_mirror(ctx):
                 bound = sir.expr_str(n["e"].get("to"))
                 incs = [x for x in nodes if x.get("k") == "binary" and x["op"] == "+=" and sir.expr_str(x["l"]) == bound]
                 cnt_ok = len(incs) == 1 and len([x for x in nodes if is_mcall(x, "push", "scopes")]) == 1
-        obs.append(ob("C05.mirror/gen/slot-scopes", ok and cnt_ok, ctx.where(f), "push@%s < element@%s < pop@%s; pops counted by the pushes: %s" % (push, call, pop, cnt_ok)))
+        # the counter lives in the same per-child iteration as the pushes and pops
+        scope_ok = False
+        pm = sir.parent_map(f.body)
+
+        def enclosing_loop(n):
+            p = n
+            while id(p) in pm:
+                p = pm[id(p)]
+                if p.get("k") in ("for", "while", "loop"):
+                    return p
+            return None
+        for n in nodes:
+            if n.get("k") == "for" and n["e"].get("k") == "range" and any(is_mcall(x, "pop", "scopes") for x in sir.walk(n["body"])):
+                bound = sir.expr_str(n["e"].get("to"))
+                decls = [x for x in nodes if x.get("k") == "local" and x["pat"].get("name") == bound]
+                if len(decls) == 1 and enclosing_loop(decls[0]) is enclosing_loop(n) and enclosing_loop(n) is not None and decls[0].get("init") is not None and sir.expr_str(decls[0]["init"]) == "0":
+                    scope_ok = True
+        obs.append(ob("C05.mirror/gen/slot-scopes", bool(ok and cnt_ok and scope_ok), ctx.where(f), "push@%s < element@%s < pop@%s; pops counted by the pushes: %s; counter starts at 0 for every child: %s" % (push, call, pop, cnt_ok, scope_ok),
+                      witness=None if scope_ok else "<a wx:for=..><b slot:x/><c/>{{item}}</a>: the second child pops the scopes of the first again"))
     # generator start scopes
     tg = [f for f in tc.fns if f.base == "Template" and f.name == "to_proc_gen" and f.body]
     if len(tg) == 1:
